@@ -580,6 +580,22 @@ class Gen:
             self.quiet.add(self.cur)
             return stmts + [{"k": "tret"}], lines + ["->->"]
         stmts, lines = self.flow_items("", n, 1)
+        if self.focus == "assign" and kind in ("knot", "thread"):
+            # globals assigned before the last line end AND after it (in look-ahead that is kept because choices or the end
+            # follow): one change for an observer, not two
+            ints = [g["n"] for g in self.globals if g["v"]["t"] == "int"]
+            for _ in range(self.r.randint(1, 2)):
+                x = self.r.choice(ints)
+                e, t = self.expr()
+                stmts += [{"k": "set", "x": x, "e": e}] + [NL] * has_call(e)
+                lines.append("~ %s = %s" % (x, t))
+                if self.p(0.7):
+                    s_, l_ = self.line("")
+                    stmts += s_
+                    lines += l_
+                e, t = self.expr()
+                stmts += [{"k": "set", "x": x, "e": e}] + [NL] * has_call(e)
+                lines.append("~ %s = %s" % (x, t))
         quiet = [t for t in self.tunnel_names() if t in self.quiet or self.kinds.get(t) == "tunnel" and t not in self.knots]
         if self.focus == "bursts" and kind == "knot" and quiet and self.p(0.8):
             # the look-ahead past the last line runs through the same silent tunnel several times and is then KEPT
